@@ -262,9 +262,14 @@ def exec_op(ctx, w, op, rng, check_fresh):
         line = {"op": "rate", "r": op["regressor"], "t": f"ts{op['ts']}", "n": tok(names), "l": tok(op["lda"])}
         rt = {}
 
+        # (a fresh, equal-valued tuple each time: the cache must compare by value) - or, every other time, the
+        # caller's own arrays, which the library must leave as they are
+        own = rng.random() < 0.5
+        pristine = (ts[0].copy(), ts[1].copy())
+
         def call():
-            # (a fresh, equal-valued tuple each time: the cache must compare by value)
-            rt["v"] = idnt.rate_quality(regressor=op["regressor"], training_set=(ts[0].copy(), ts[1].copy()),
+            rt["v"] = idnt.rate_quality(regressor=op["regressor"],
+                                        training_set=(ts[0], ts[1]) if own else (ts[0].copy(), ts[1].copy()),
                                         names=names, lda=op["lda"])
     before = [deep_state(a) for a in args]
     with histlib.Counter() as cnt, warnings.catch_warnings():
@@ -297,6 +302,9 @@ def exec_op(ctx, w, op, rng, check_fresh):
     if before != after:
         ctx.violation("argument-mutated:" + op["op"], f"{desc} modified an object handed to it",
                       {"history": list(w.history)})
+        if op["op"] == "rate":
+            ts[0][...] = pristine[0]          # (the arrays are shared by later operations of the run)
+            ts[1][...] = pristine[1]
     if not w.raw_unchanged():
         ctx.violation("raw-data-modified", f"{desc} modified the recorded raw data", {"history": list(w.history)})
     obs = w.observe(outcome, cnt)
